@@ -36,14 +36,16 @@ def stretched_gates(gates, *, suffix=None, update=False):
         if suffix:
             new_name = gate.name + suffix
         else:
-            new_name = None
+            new_name = gate.name
 
         parameters = gate.parameters.copy()
         parameters.append(Parameter("stretch", ParamType.FLOAT))
 
         if gate.ideal_unitary:
             # Drop the last argument, which is the stretch factor
-            ideal_unitary = lambda *args: gate.ideal_unitary(args[:-1])
+            def ideal_unitary(*args, _parent_unitary=gate.ideal_unitary):
+                return _parent_unitary(*args[:-1])
+
         else:
             ideal_unitary = None
 
@@ -53,7 +55,7 @@ def stretched_gates(gates, *, suffix=None, update=False):
 
         new_gates[new_name] = new_gate
         if add_idle:
-            new_name = name + suffix
+            new_name = name + suffix if suffix else name
             new_gate = IdleGateDefinition(new_gate, name=new_name)
             new_gates[new_name] = new_gate
 
